@@ -2,7 +2,7 @@
 From Coq Require Import ZArith Lia.
 From RsdnsModel Require Import Base GenHeader Cursor Names Labels Header Tracker RData Reader RecordSet.
 From RsdnsModel.Spec Require Import LinearPass.
-From RsdnsModel.Proofs Require Import Gates ReaderRefine FromMsgRefine.
+From RsdnsModel.Proofs Require Import Gates ReaderRefine FromMsgRefine MessageRT EndToEnd.
 Open Scope N_scope.
 
 (* For ALL byte strings (no well-formedness assumed) and all 17 record-data types: a returned
@@ -59,3 +59,24 @@ Theorem C07_rcode_gate : forall msg nq an ns ar qs rs e1 e2,
   (the_rcode an ns ar rs h <> 0 -> from_msg msg ty = Err (BadResponseCode (the_rcode an ns ar rs h))) /\
   (forall s, from_msg msg ty = Ok s -> the_rcode an ns ar rs h = 0).
 Proof. exact from_msg_rcode_gate. Qed.
+
+(* ---- end to end, on the semantic description of a response (Proofs/MessageRT.v, EndToEnd.v) ----
+   One question and records standing back to back behind a header that announces them, a response,
+   not truncated.  [sem_rcode rs an h]: the header's RCODE nibble, extended by the extension octet in
+   the TTL of the FIRST record of type OPT among the records behind the answer section (authority and
+   additional, any position; raw records of any other type in between do not matter).  If it is not
+   NOERROR, from_msg reports BadResponseCode with exactly that 12-bit value — whatever the answer
+   section holds. *)
+Theorem C07_rcode_gate_end_to_end : forall msg q rs an ns ar e1 e2 h ty,
+  lenN msg <= 65535 -> 12 <= lenN msg -> questions_stand msg 12 [q] e1 -> records_stand msg e1 rs e2 ->
+  lenN rs = an + ns + ar -> an <= 65535 -> ns <= 65535 -> ar <= 65535 ->
+  read_header msg (c_new msg) = (c_set_pos (c_new msg) 12, Ok h) ->
+  h_qd h = 1 /\ h_an h = an /\ h_ns h = ns /\ h_ar h = ar ->
+  flag_qr (h_flags h) = true -> flag_tc (h_flags h) = false ->
+  sem_rcode rs an h <> 0 -> from_msg msg ty = Err (BadResponseCode (sem_rcode rs an h)).
+Proof. exact from_msg_rcode_gate_sem. Qed.
+
+(* e.g. header RCODE 0, no answers, an OPT record in the additional section with extension octet 1:
+   BADVERS (16) *)
+Example C07_rcode_gate_example : from_msg example_opt_msg T_A = Err (BadResponseCode 16).
+Proof. exact example_rcode_gate. Qed.
